@@ -275,6 +275,8 @@ def gen_cases(rng, n, tier):
         deg = i % 2 == 0
         cases.append({"kind": "euler_order_sweep", "deg": deg, "order": order, "scalar": False,
                       "angles": [rng.uniform(-720, 720) if deg else rng.uniform(-7, 7) for _ in range(3)]})
+    for _ in range(24 if tier == "quick" else 300):  # rational rotation matrices (integer quaternions), rounded to binary64
+        cases.append({"kind": "rotation_matrix", "orth": True, "r": _quat_rotation(rng)})
     for _ in range(12 if tier == "quick" else 200):
         up, look = _near_collinear(rng, tier)
         cases.append({"kind": "up_look_near_collinear", "up": up, "look": look})
